@@ -749,6 +749,11 @@ def make_sftp_server(root: str, pool: List[Dict[str, Any]]):
                 raise asyncssh.SFTPError(int(path[4:].split(b'/')[0]),
                                          'injected', 'en')
 
+            if path.startswith(b'/@n/'):
+                # what the stock SFTPServer raises where the platform
+                # lacks an operation (documented -> FX_OP_UNSUPPORTED)
+                raise NotImplementedError
+
             return super().map_path(path)
 
         def _pool(self, path):
@@ -852,7 +857,7 @@ def build_request(sess: _Session, req: Dict[str, Any]) -> Dict[str, Any]:
         return None
 
     if op in PATH_OPS:
-        if path.startswith('/@e/') or path.startswith('/@s/'):
+        if path.startswith(('/@e/', '/@s/', '/@n/')):
             if op in INJECTABLE:
                 inject = path
             else:
@@ -866,6 +871,9 @@ def build_request(sess: _Session, req: Dict[str, Any]) -> Dict[str, Any]:
         if inject.startswith('/@e/'):
             expect = errno_status(v, inject[4:])
             info['inject'] = 'errno'
+        elif inject.startswith('/@n/'):
+            expect = {W.FX_OP_UNSUPPORTED}
+            info['inject'] = 'notimpl'
         else:
             expect = status_for(v, int(inject[4:]))
             info['inject'] = 'sftp'
@@ -1523,7 +1531,7 @@ def server_strategy(tier: str):
         pick(sorted(FIXTURE)), pick(sorted(FIXTURE)),
         pick(WPATHS),
         pick(['/@e/' + e for e in ERRNOS]),
-        pick(['/@s/%d' % c for c in range(2, 32)]),
+        pick(['/@s/%d' % c for c in range(2, 32)] + ['/@n/x', '/@n/x']),
         pick(['/@a0', '/@a1']))
     href = st.one_of(st.tuples(st.just('live'), st.integers(0, 3)),
                      st.tuples(st.just('live'), st.integers(0, 3)),
@@ -2337,7 +2345,7 @@ def enum_errors(tier: str):
 
     attrs = {'permissions': 0o644}
     paths = ['/@e/' + e for e in ERRNOS] + \
-        ['/@s/%d' % c for c in range(2, 32)]
+        ['/@s/%d' % c for c in range(2, 32)] + ['/@n/x']
 
     for v in (3, 4, 5, 6):
         for op in sorted(INJECTABLE):
@@ -2377,7 +2385,7 @@ FAMILIES = [
                      ['op:' + op for op in OPS]}),
     Family('errors', run_server, enumerate=enum_errors,
            required={'all': ['v3', 'v4', 'v5', 'v6', 'inject:errno',
-                             'inject:sftp'] +
+                             'inject:sftp', 'inject:notimpl'] +
                      ['op:' + op for op in sorted(INJECTABLE)]}),
     Family('client', run_client, strategy=client_strategy,
            budget={'quick': 1280, 'thorough': 20000},
